@@ -32,6 +32,8 @@ mod store;
 mod sync;
 mod task;
 mod time;
+#[cfg(excsn_fibre_verif)]
+pub use time::verif as verif_time;
 
 #[cfg(feature = "serde")]
 pub mod snapshot;
